@@ -119,3 +119,11 @@ theorem in_contains_out_plus_overlap_aux (A B s v : Int) (hv : 0 ≤ v) (k : Nat
   simp only
   omega
 end Homonim
+
+namespace Homonim
+theorem in_contains_out_plus_overlap_eq (A B s v : Int) (hv : 0 ≤ v) (k : Nat) :
+    procIn A B s v k = ⟨max ((procOut A B s v k).lo - v) A, min ((procOut A B s v k).hi + v) B⟩ := by
+  unfold procIn procOut blockUl
+  simp only [Win1.mk.injEq]
+  constructor <;> omega
+end Homonim
